@@ -170,7 +170,9 @@ func reifyInto(opts *options, to reflect.Value, from *Config) Error {
 
 	// allocate what a nil pointer behind the target points to
 	// (var m *map[string]T; Unpack(&m))
-	for to.Kind() == reflect.Ptr && to.IsNil() && to.CanSet() {
+	// (a struct behind the pointer is allocated by reifyStruct, which stores it
+	// only when unpacking succeeds)
+	for to.Kind() == reflect.Ptr && to.IsNil() && to.CanSet() && chaseTypePointers(to.Type()).Kind() != reflect.Struct {
 		to.Set(reflect.New(to.Type().Elem()))
 		to = chaseValuePointers(to)
 	}
